@@ -97,10 +97,15 @@ CHECKS = {
             "schedule, witness for a list-rewriting _subscribe; subscribe is one step because of the fabric's subscription "
             "lock (generated tag). Tie: real fabric threads under the deterministic scheduler, per step (families fab, fabfine).",
             "§8 C06", NOTE_CONC),
-    "C08": ("Lean 4 proofs: PriorityQueue.get returns the (priority, sequence) minimum; draining is sorted",
+    "C08": ("Lean 4 proofs: the binary heap under PriorityQueue (CPython's sift algorithms transcribed) keeps the heap condition and "
+            "pops the (priority, sequence) minimum; it refines the list model; draining is sorted",
             "Theorems: minFE returns the least element in (priority, creation sequence) order; draining any queued content "
-            "yields a sorted permutation (however far delivery lags); sequence numbers follow publish order. Partial: heapq "
-            "is abstracted to 'returns the minimum for __lt__'.", "§8 C08", NOTE_CONC),
+            "yields a sorted permutation (however far delivery lags); sequence numbers follow publish order. Heap model "
+            "(Data.Heap: heappush / heappop / _siftdown / _siftup as in CPython, comparator = FabricEvent.__lt__): every "
+            "reachable array is a heap, push/pop are permutations, pop returns what minFE returns, any put/get sequence on "
+            "the heap yields the outputs of the list model, the drained order is sorted; witnesses for the priority-only "
+            "comparator and for a broken layout. Tie: array layouts of a real PriorityQueue of real FabricEvents compared "
+            "with the model after every operation.", "§8 C08", NOTE_CONC),
     "C09": ("Lean 4 proof of placement per subscription kind + correspondence",
             "Theorems: lifo delivery to an active object's queue puts the event at the front, fifo delivery at the back, "
             "for every prior queue content (generated tag lifoDeliver); witness for the earlier code.", "§8 C09", NOTE_CONC),
@@ -125,11 +130,16 @@ CHECKS = {
             "dispatch log; the run flag stays cleared; every tracked source is cancelled and silent. Handlers that arm timed "
             "sources while stop() is in progress (model Conc.AOArm, lock granularity, spurious wake-ups, cancel by name): "
             "after stop() returned every source is cancelled and untracked, nothing posts or steps, and stop() returns under "
-            "every fair schedule; witness for a snapshot taken before the join. Partial: stop() called from a handler is "
-            "covered by the correspondence / oracle only.", "§8 C12", NOTE_CONC),
+            "every fair schedule; witness for a snapshot taken before the join. stop() called from one of the object's own "
+            "handlers (model Conc.AOOwn): no run-to-completion step begins after the step that called stop(), the thread "
+            "ends at its next loop test and stays ended, every source is cancelled, untracked and silent, and every fair "
+            "schedule gets there; witnesses for a stop() that does not clear the run flag and for an uncaught join error. "
+            "Source obligations: stop() clears the flag before appending STOP, guards the join of its own thread, and every "
+            "use of the tracked-source list is under the object's lock.", "§8 C12", NOTE_CONC),
     "C31": ("Lean 4 one-step and invariant proofs + schedule-replay correspondence",
             "Theorems: a timed post at capacity creates no source (nothing can ever post for it) and returns the error "
-            "result; accepted sources are tracked; tracked count never exceeds the capacity.", "§8 C31", NOTE_CONC),
+            "result; accepted sources are tracked; tracked count never exceeds the capacity. Source obligation: the tracked "
+            "list is bounded by the very expression the capacity test uses (subclasses that raise QUEUE_SIZE).", "§8 C31", NOTE_CONC),
     "C17": ("Lean 4 proof on top of the C01 refinement: template chart and to_code chart have the same spec + three-way run and ladder correspondence",
             "Theorems: the ladder printed by to_code answers every signal as the registration table does (stable priority "
             "order, missing ENTRY/INIT/EXIT filled with HANDLED, callbacks named `handled` inlined); the chart denoted by "
